@@ -34,6 +34,16 @@ pub fn message_lengths(ctx_len: usize, thorough: bool) -> Vec<usize> {
     v
 }
 
+/// Message lengths just past buffer-sized boundaries (4 KiB .. 1 MiB, and a non-power-of-two multiple of
+/// 64 KiB): code that absorbs a message in pieces shows itself only beyond its piece size.
+pub fn long_message_lengths(g: &mut Prng) -> Vec<usize> {
+    let mut v = Vec::new();
+    for base in [1usize << 12, 1 << 14, 1 << 16, 1 << 17, 1 << 18, 3 << 16, 1 << 20] {
+        v.push(base + 1 + g.below(300) as usize);
+    }
+    v
+}
+
 pub fn message(g: &mut Prng, len: usize) -> Vec<u8> {
     match g.below(8) {
         0 => vec![0u8; len],
@@ -439,4 +449,55 @@ pub fn wrap_sk(g: &mut Prng, p: &Params, k: usize, n: usize, high: bool) -> Opti
         }
     }
     None
+}
+
+
+// ---------------------------------------------------------------------------------------------
+// polynomials with a prescribed zero run in the NTT domain
+// ---------------------------------------------------------------------------------------------
+
+/// A polynomial with coefficients in [lo, hi] whose NTT (Algorithm 41 output order) is zero on the aligned
+/// group of 16 coefficients [16k, 16k + 16) and (with overwhelming probability) non-zero elsewhere.
+///
+/// X^256 + 1 splits into sixteen factors X^16 - r_k; NTT group k holds the residues modulo X^16 - r_k.
+/// f = sum_j X^j F_j(X^16) vanishes there iff F_j(r_k) = 0 (mod q) for every j. For each of `classes`
+/// residue classes j the coefficients a_1..a_15 of F_j are drawn uniformly from [lo, hi] and a_0 is
+/// solved for; the draw is repeated until a_0 falls into the range too (probability (hi-lo+1)/q).
+/// The other classes stay zero.
+pub fn poly_zero_ntt_group(g: &mut Prng, lo: i64, hi: i64, k: usize, classes: usize) -> Poly {
+    assert!(k < 16 && (1..=16).contains(&classes));
+    let mut x16 = r::ZERO;
+    x16[16] = 1;
+    let rk = r::ntt(&x16)[16 * k];
+    let mut pw = [1i64; 16];
+    for i in 1..16 {
+        pw[i] = pw[i - 1] * rk % r::Q;
+    }
+    let span = (hi - lo + 1) as u64;
+    let mut f = r::ZERO;
+    for j in 0..classes {
+        loop {
+            let mut a = [0i64; 16];
+            let mut acc = 0i64;
+            for i in 1..16 {
+                a[i] = lo + g.below(span) as i64;
+                acc = (acc + a[i] * pw[i]).rem_euclid(r::Q);
+            }
+            // a_0 = -acc (mod q), represented in (-q/2, q/2]
+            let mut a0 = (r::Q - acc) % r::Q;
+            if a0 > r::Q / 2 {
+                a0 -= r::Q;
+            }
+            if a0 >= lo && a0 <= hi {
+                a[0] = a0;
+                for i in 0..16 {
+                    f[16 * i + j] = a[i];
+                }
+                break;
+            }
+        }
+    }
+    let fh = r::ntt(&f);
+    debug_assert!(fh[16 * k..16 * k + 16].iter().all(|&c| c == 0));
+    f
 }
